@@ -16,7 +16,14 @@ library.  Two comparisons per case:
                   scheduler.optimizer identity and last_epoch, history lengths) after the first
                   k iterations, after the interruption, and after the remaining iterations, on
                   the continued copy and on the live original — against the Coq model
-                  (C05_Model.Struct) evaluated on the same operation sequence."""
+                  (C05_Model.Struct) evaluated on the same operation sequence.
+
+Round 3: a case is a list of segments (k_j iterations, then one or SEVERAL interruptions applied one
+after the other) followed by the remaining iterations; interruptions now include `.to()` on the same
+object and save() WITHOUT the raw data + from_file(path, dset=...) (`_dataset_metadata`); the
+observables include the validation losses, the per-iteration snapshots and the learned dataset
+parameters; the structural snapshots are compared with the model after every segment and after every
+single interruption.  See harness/props/C05.audit.md."""
 from __future__ import annotations
 
 import json
@@ -570,6 +577,8 @@ def run(ctx: Ctx):
             ctx.sample({"case": describe(case), "losses_resumed": res["resumed"]["losses"],
                         "losses_uninterrupted": res["ref"]["losses"], "lrs_resumed": res["resumed"]["lrs"],
                         "structure_after_interrupt": res["s_q"], "oracle": [b[0] for b in bad] or "holds"})
+        for big in ("ref", "resumed", "live", "reports", "saved", "reported"):
+            res.pop(big, None)        # the numeric observations are not needed for the correspondence
     try:
         import shutil
         shutil.rmtree(workdir, ignore_errors=True)
